@@ -312,6 +312,11 @@ impl Prop for Sessions {
 pub fn run_session(case: &Session, loc: &mut Local) -> Result<(), String> {
     let wait = Duration::from_secs(60);
     let mut u = Uci::spawn()?;
+    // every third session is written with CR LF line ends, as a Windows front end does
+    if case.steps.len() % 3 == 0 {
+        u.eol = "\r\n";
+        loc.class("session_with_cr_lf_line_ends");
+    }
     let mut cur = Pos::startpos();
     let mut gos: Vec<GoRecord> = vec![];
     let mut isready_sent = 0usize;
@@ -821,7 +826,7 @@ pub fn plan(ctx: &Ctx) -> Plan {
                commands derived from the previous one (moves taken back, continued, repeated, bare start, last move replaced), go \
                depth 1-4, go movetime 0-299, bare go, stop, .state} plus per-command driver timing {send next at once, wait \
                for first info, wait for bestmove, sleep 1-149 ms} and optional isready barriers, ended by quit or end of \
-               input. Positions: book lines, random play, tempo-losing lines that reach book placements without castling \
+               input; every third session with CR LF line ends. Positions: book lines, random play, tempo-losing lines that reach book placements without castling \
                rights, same placement under different rights/ep across position commands, sparse endgames, low-mobility \
                pawn walls, positions one move before mate, mated and stalemated positions. Oracle (session model on the \
                rules oracle): uci -> id name, id author, uciok in order; every isready -> exactly one readyok, also while a \
